@@ -162,13 +162,23 @@ func (c *Client) Start(ctx context.Context) {
 
 func (c *Client) handleIncomingDelegation(ctx context.Context, link *protocol.Link, delegation net.Conn) error {
 	hostname := link.GetHostname()
+	// the route and the proxy built from it must belong to the same configuration: hold the read lock
+	// until the proxy has been looked up (or created), so that a rebuild cannot invalidate the proxies
+	// in between and leave a proxy for the previous target cached
+	c.configMu.RLock()
 	u, ok := c.Configuration.router.Load(hostname)
 	verifhook.At("client:conn:routed", 0)
 	if !ok {
+		c.configMu.RUnlock()
 		c.Logger.Error("Unknown hostname in connection", zap.String("hostname", hostname))
 		delegation.Close()
 		return tun.ErrDestinationNotFound
 	}
+	var proxy *httpProxy
+	if link.GetAlpn() == protocol.Link_HTTP {
+		proxy = c.getHTTPProxy(ctx, hostname, u)
+	}
+	c.configMu.RUnlock()
 
 	c.Logger.Info("Incoming connection from gateway",
 		zap.String("protocol", link.GetAlpn().String()),
@@ -177,7 +187,7 @@ func (c *Client) handleIncomingDelegation(ctx context.Context, link *protocol.Li
 
 	switch link.GetAlpn() {
 	case protocol.Link_HTTP:
-		c.getHTTPProxy(ctx, hostname, u).acceptor.Handle(delegation)
+		proxy.acceptor.Handle(delegation)
 
 	case protocol.Link_TCP:
 		c.forwardStream(ctx, hostname, delegation, u)
